@@ -418,6 +418,15 @@ fn c17(args: &[String]) {
                         w.run_case(&format!("special-at-end/{name}"), &slots, true);
                     }
                 }
+                // family 6: every sequence of slot kinds (reader state machine)
+                for len in 1..=(if thorough { 6usize } else { 5 }) {
+                    let count = family6_count(len);
+                    let mut idx = t as u64;
+                    while idx < count {
+                        w.run_case(&format!("kinds/{len}/{idx}"), &family6_case(len, idx), false);
+                        idx += nthreads as u64;
+                    }
+                }
                 // family 4: every value of every byte of the 3 base slots
                 let base = byte_base();
                 let mut j = t;
